@@ -1,6 +1,7 @@
 package streams
 
 import (
+	"strings"
 	apierrors "k8s.io/apimachinery/pkg/api/errors"
 	"k8s.io/apimachinery/pkg/runtime/schema"
 	"context"
@@ -265,6 +266,14 @@ func normStatusTimes(st *canon.EDSStatus, lo, hi, now int64) {
 func streamEdsReconcile(r *rand.Rand, i int, tier string) *Case {
 	now := time.Now()
 	var cat []string
+	// one case in fourteen: the ExtendedDaemonSet has a long (legal: up to 253 characters) name, which is
+	// no valid label VALUE (63 characters at most) — whatever is built from it must still select its own
+	// objects only
+	testEDS := testEDS
+	if r.Intn(14) == 0 {
+		testEDS = "agent-" + strings.Repeat("x", 60+r.Intn(20))
+		cat = append(cat, "eds-long-name")
+	}
 	eds := &edsv1.ExtendedDaemonSet{ObjectMeta: metav1.ObjectMeta{Name: testEDS, Namespace: testNS, UID: "uid-eds",
 		CreationTimestamp: mt(now.Add(-24 * time.Hour)), Annotations: map[string]string{}}}
 	ids := []int{1, 2, 3}
@@ -573,6 +582,16 @@ func streamEdsReconcile(r *rand.Rand, i int, tier string) *Case {
 	stale0 := &edsv1.ExtendedDaemonSet{}
 	_ = cl.Get(context.TODO(), types.NamespacedName{Namespace: testNS, Name: testEDS}, stale0)
 	staleRead := prerun && len(failAt) == 0 && (r.Intn(2) == 0 || directed)
+	if staleRead && !directed && r.Intn(3) == 0 {
+		// the user pushed another template after the snapshot the stale reconcile will read: the previous
+		// (fresh) reconcile creates its replica set, the stale one still decides from the old spec
+		cur := &edsv1.ExtendedDaemonSet{}
+		if err := cl.Get(context.TODO(), types.NamespacedName{Namespace: testNS, Name: testEDS}, cur); err == nil {
+			cur.Spec.Template = tplCase(pick(r, ids...))
+			_ = cl.Update(context.TODO(), cur)
+			cat = append(cat, "stale-read:spec-changed-meanwhile")
+		}
+	}
 	if prerun {
 		mode0 := pick(r, edsv1.ExtendedDaemonSetSpecStrategyCanaryValidationModeAuto, edsv1.ExtendedDaemonSetSpecStrategyCanaryValidationModeManual)
 		pre, _ := runEdsReconcile(newEDSReconciler(cl, mode0), wl, testNS, testEDS)
@@ -674,6 +693,17 @@ func streamEdsReconcile(r *rand.Rand, i int, tier string) *Case {
 		out.StoredChanged = !canonEq(canon.CEDS(before), canon.CEDS(after))
 		b, a := canon.CEDS(before).Status.Canary, canon.CEDS(after).Status.Canary
 		out.StoredCanaryChanged = !canonEq(b, a)
+		// observed, not judged (EdsProps/L3RV, counterexample A): replica-set deletions are not guarded by the
+		// ExtendedDaemonSet's resourceVersion, so a reconcile deciding from a stale object may delete the
+		// replica set of the template the STORED spec asks for (it is recreated by the next fresh reconcile)
+		hStored, _ := comparison.GenerateMD5PodTemplateSpec(&before.Spec.Template)
+		for _, e := range lst.Items {
+			for _, dn := range out.DeletedErs {
+				if e.Name == dn && e.Namespace == testNS && e.Annotations[edsv1.MD5ExtendedDaemonSetAnnotationKey] == hStored {
+					cat = append(cat, "observed:stale-read-deleted-replica-set-of-stored-template")
+				}
+			}
+		}
 	}
 	cat = append(cat, "kind:"+out.Kind)
 	if out.Created != nil {
